@@ -126,6 +126,9 @@ impl KnownFindings {
 
 #[derive(Serialize, Deserialize, Default, Debug)]
 pub struct WorkerSummary {
+  /// slowest single run of this worker: (milliseconds, index)
+  #[serde(default)]
+  pub slowest: (u64, u64),
   pub runs: u64,
   #[serde(default)]
   pub evals: u64,
@@ -201,11 +204,16 @@ pub fn worker_main(sim: &dyn Simulation, a: WorkerArgs) -> ! {
       break;
     }
     let seed = rng::run_seed(a.seed, idx);
-    *current.lock().unwrap() = Some((idx, Instant::now()));
+    let run_t0 = Instant::now();
+    *current.lock().unwrap() = Some((idx, run_t0));
     let rep = std::panic::catch_unwind(std::panic::AssertUnwindSafe(|| sim.run(seed, &a.tier, &known)));
     *current.lock().unwrap() = None;
     let mut s = summary.lock().unwrap();
     s.last_index = idx;
+    let ms = run_t0.elapsed().as_millis() as u64;
+    if ms > s.slowest.0 {
+      s.slowest = (ms, idx);
+    }
     match rep {
       Err(p) => {
         let msg = panic_msg(&p);
@@ -505,6 +513,7 @@ pub fn check_main(sim: &dyn Simulation, a: CheckArgs) -> i32 {
     wall,
     runs_per_hour
   );
+  println!("agsim: slowest single run: {} ms (index {}); the hang watchdog is at {HANG_SECS} s", total.slowest.0, total.slowest.1);
   println!("agsim: faults fired: {faults:?}");
   println!("agsim: probes: {probes:?}");
   if !policies.is_empty() {
@@ -547,6 +556,7 @@ pub fn check_main(sim: &dyn Simulation, a: CheckArgs) -> i32 {
         "components": {"real": d.real, "stub": d.stub},
         "determinism_sample": {"runs_recomputed_in_other_processes": det_n, "mismatches": det_mismatch},
         "workers": a.workers,
+        "slowest_run_ms": total.slowest.0,
         "exhaustive": false
       },
       "assumptions": d.assumptions,
@@ -579,6 +589,9 @@ pub fn check_main(sim: &dyn Simulation, a: CheckArgs) -> i32 {
 }
 
 fn merge(total: &mut WorkerSummary, distinct: &mut BTreeSet<u64>, s: WorkerSummary) {
+  if s.slowest.0 > total.slowest.0 {
+    total.slowest = s.slowest;
+  }
   total.runs += s.runs;
   total.evals += s.evals;
   total.steps += s.steps;
